@@ -391,6 +391,22 @@ def qd_wake_blocked(ctx):
             out.append(bad(R, '%s|wake_blocked.assign' % short(fn.root or fn.name), 'the list of blocked sync callers is replaced wholesale', loc=fn.loc(bb, i), fn=fn.name))
     if counts['push'] < 1 or counts['retain'] < 2:
         out.append(undecided(R, 'floor', 'expected 1 push and 2 retain sites, found %d/%d' % (counts['push'], counts['retain'])))
+    # a caller registers before it can wait, whatever state it found the queue in (a queue parked by a suspension is not "running", but its
+    # waiters still need the hand-over when it is resumed)
+    sb = F.fn('desync::Scheduler::sync_background')
+    key = 'sync_background|registers-before-waiting'
+    if not sb:
+        out.append(undecided(R, key, 'anchor not found'))
+    else:
+        ub = FieldUse(sb, JQC)
+        pushes_ = set(bb for (bb, m, t) in ub.calls.get('wake_blocked', []) if m == 'push')
+        waits_ = set(bb for bb, t in sb.calls() if (t['func'].get('fn') or '').startswith('std::sync::poison::condvar::Condvar::wait'))
+        if not waits_:
+            out.append(undecided(R, key, 'no Condvar::wait in sync_background'))
+        elif pushes_ and sb.must_pass(0, waits_, pushes_):
+            out.append(ok(R, key, 'the caller\'s condition variable is in wake_blocked on every path that reaches the wait', fn=sb.name))
+        else:
+            out.append(bad(R, key, 'sync_background can reach its wait without having registered in wake_blocked: when the queue is handed on (rescheduled, resumed after a suspension) this caller is not told, and with no free pool thread it waits for ever', fn=sb.name))
     # reschedule_queue tells every blocked sync caller, on every path: a waiter has no other way to learn that it may claim the queue
     # (a pool thread that was asked to look at the schedule can be taken by another queue)
     rq = F.fn('desync::SchedulerCore::reschedule_queue')
